@@ -314,7 +314,7 @@ class Publisher(object):
             else:
                 self._last[sub] = at
             for c in range(copies):
-                sub._enqueue(at + c * 0.001, topic, bmsg)
+                sub._enqueue(at + c * 0.001, topic, bmsg, self._owner)
         sim.yield_('pub.put')
 
 
@@ -375,9 +375,9 @@ class Subscriber(object):
         except Exception:
             return False
 
-    def _enqueue(self, at, topic, bmsg):
+    def _enqueue(self, at, topic, bmsg, src=None):
         self._seq += 1
-        self._inbox.append([at, self._seq, topic, bmsg])
+        self._inbox.append([at, self._seq, topic, bmsg, src])
         self._inbox.sort(key=lambda x: (x[0], x[1]))
         self._bridge.net.inflight += 1
 
@@ -407,6 +407,9 @@ class Subscriber(object):
 
     def stop(self):
         self._term = True
+        # whatever was queued for this endpoint is gone with it
+        self._bridge.net.inflight -= len(self._inbox)
+        self._inbox = list()
 
     def _start_listener(self):
         if self._thread:
@@ -443,10 +446,10 @@ class Subscriber(object):
             item = self._wait_msg(None)
             if item is None:
                 continue
-            at, seq, topic, bmsg = item
+            at, seq, topic, bmsg, src = item
             msg = _ru.as_string(_ru.from_msgpack(bmsg))
             sim.log('deliver', chan=self._bridge.channel,
-                    side=self._bridge.side, to=self._owner,
+                    side=self._bridge.side, to=self._owner, src=src,
                     m=summarize(msg))
             for cb, lock in list(self._callbacks):
                 try:
@@ -473,14 +476,14 @@ class Subscriber(object):
         item = self._wait_msg(to)
         if item is None:
             return [None, None]
-        at, seq, topic, bmsg = item
+        at, seq, topic, bmsg, src = item
         return [topic, _ru.as_string(_ru.from_msgpack(bmsg))]
 
     def get(self):
         item = self._wait_msg(None)
         if item is None:
             return [None, None]
-        at, seq, topic, bmsg = item
+        at, seq, topic, bmsg, src = item
         return [topic, _ru.as_string(_ru.from_msgpack(bmsg))]
 
 
@@ -861,6 +864,9 @@ class RuProxy(object):
 
     def get_hostname(self):
         return 'localhost'
+
+    def cancel_main_thread(self, *a, **k):
+        _sim().log('cancel_main_thread')
 
     def get_hostip(self, *a, **k):
         return '127.0.0.1'
